@@ -6,6 +6,7 @@ import QV.Core.GI
 import QV.Model.Superop
 import QV.Model.Networks
 import QV.Model.Dilation
+import QV.Model.Dispatch
 open QV QV.Superop QV.Networks
 
 structure Rd where
@@ -146,6 +147,32 @@ def dump (N : Net GI) : String :=
   let ma : Array GI := Array.ofFn (n := m * m) fun i => matrix GI.conj Nf (i.val / m) (i.val % m)
   s!"P {nats N.part} ; S {bools N.sysIn} ; U {if N.pure then 1 else 0} ; T {showGIs ta} ; F {showGIs fa} ; M {showGIs ma}"
 
+/-! dispatch tables -/
+
+def repOf : String → QV.Dispatch.Rep
+  | "op" => .op | "kraus" => .kraus | "choi" => .choi | "liouville" => .liouville
+  | "pauli" => .pauli | "chi" => .chi | _ => .stinespring
+
+def argOf (s : String) : QV.Dispatch.Arg :=
+  if s = "C" then .caller else if s = "D" then .dflt else .lit ((s.drop 1).toNat?.getD 99)
+
+def nextArgs : P QV.Dispatch.Args := do
+  let a ← nextTok; let b ← nextTok; let c ← nextTok; let d ← nextTok; let e ← nextTok; let f ← nextTok
+  pure ⟨argOf a, argOf b, argOf c, argOf d, argOf e, argOf f⟩
+
+def nextRow : P QV.Dispatch.Row := do
+  let name ← nextTok
+  let src := repOf (← nextTok); let dst := repOf (← nextTok)
+  let k ← nextNat
+  let mut steps : List QV.Dispatch.Step := []
+  for _ in [0:k] do
+    let callee ← nextTok
+    let s := repOf (← nextTok); let t := repOf (← nextTok)
+    let data := (← nextNat) != 0
+    let args ← nextArgs
+    steps := ⟨callee, s, t, data, args⟩ :: steps
+  pure ⟨name, src, dst, steps.reverse⟩
+
 def handle : P String := do
   let cmd ← nextTok
   match cmd with
@@ -196,6 +223,17 @@ def handle : P String := do
     let ra ← nextGIs (d * d)
     let out := applyStinespring GI.conj d e (matOfArr (d * e) sa) (fun k => va.getD k 0) (matOfArr d ra)
     pure (showGIs (Array.ofFn (n := d * d) fun i => out (i.val / d) (i.val % d)))
+  | "DTABLE" =>
+    pure (" | ".intercalate (QV.Dispatch.table.map QV.Dispatch.Row.str))
+  | "DPRIMS" =>
+    pure (" | ".intercalate (QV.Dispatch.prims.map fun t => s!"{t.1} {t.2.1.str} {t.2.2.str}"))
+  | "DTABLEOK" =>
+    -- `tableOk prims rows` on rows regenerated from the source
+    let n ← nextNat
+    let mut rows : List QV.Dispatch.Row := []
+    for _ in [0:n] do
+      rows := (← nextRow) :: rows
+    pure (if QV.Dispatch.tableOk QV.Dispatch.prims rows.reverse then "ok" else "bad")
   | "" => pure ""
   | c => pure s!"bad-op {c}"
 
